@@ -44,6 +44,7 @@ static long max_steps = 4000000, nviol = 0, spurious = 0, switches = 0;
 static prng_t G;       // scheduler choices
 static prng_t GP;      // program choices
 static int mode = 0;   // 0 tfree, 1 exit, 2 heap, 3 prodcons
+static int stagger = 0, last_exited = -1;   // VERIF_STAGGER: staggered thread exits (mode exit)
 static int many_segments = 0;   // VERIF_TARGET_SEGMENTS: threads own more segments than the target, so segments are force-abandoned
 static int big_arena = 0;   // VERIF_BIG_ARENA: a 4 GiB arena (128 blocks, two bitmap fields) and huge farewell blocks
 static int lockfmt = 0; // mode `lock`: tfree program, log in the lockstep format of ocaml/mode_tfree.ml
@@ -330,13 +331,17 @@ static void collect_heap(mi_heap_t* h, int force) {
 static void run_program(void) {
   if (mode == 3) { pc_program(); return; }
   if (mode == 2 && cur != 0) { extra_heap[cur] = new_heap(); }
-  for (int k = 0; k < nops; k++) {
+  // VERIF_STAGGER: threads terminate one after the other (thread k after k/nthreads of the program) while thread 0 keeps running
+  const int my_nops = (stagger && mode == 1 && cur != 0) ? (nops * cur) / nthreads + 5 : nops;
+  for (int k = 0; k < my_nops; k++) {
     vts[cur].ops_done++;
     int r = (int)prng_below(&GP, 100);
     int s = (int)prng_below(&GP, NSLOT);
     if (r < 48) { if (slots[s].p == NULL) do_alloc(s); else do_free(s); }
     else if (r < 86) { // free a random live slot, preferably one of another thread
       int best = -1; for (int j = 0; j < NSLOT; j++) { int q = (s + j) % NSLOT; if (slots[q].p != NULL) { best = q; if (slots[q].owner != cur) break; } }
+      // staggered exits: prefer a block left behind by the thread that terminated last (its segments were abandoned last)
+      if (stagger && last_exited >= 0 && prng_below(&GP, 3) != 0) for (int j = 0; j < NSLOTX; j++) { int q = (s + j) % NSLOTX; if (slots[q].p != NULL && slots[q].owner == last_exited) { best = q; break; } }
       if (best >= 0) do_free(best);
     }
     else if (r < 90) { int f = prng_below(&GP, 2) != 0; if (lockfmt && do_log) { lk_declare(); printf("A %d collect %d %d\n", cur, heap_id(mi_prim_get_default_heap()), f); } mi_collect(f); lk_ret(); }
@@ -397,20 +402,24 @@ static void run_program(void) {
 static void vthread_main(void) {
   run_program();
   mi_thread_done();
-  vts[cur].exited = 1; vts[cur].alive = 0;
+  vts[cur].exited = 1; vts[cur].alive = 0; last_exited = cur;
   int nx = pick_next(1, 0);
   int prev = cur; vts[prev].defheap = _mi_heap_default; cur = nx; _mi_heap_default = vts[nx].defheap;
   setcontext(&vts[nx].ctx);
 }
 
 // watchdog: a loop inside the allocator that performs no atomic operation (e.g. a cyclic free list) never reaches a scheduling
-// point, so the step budget cannot see it; every 10 s of wall time the step counter must have moved
+// point, so the step budget cannot see it; while the scheduler is on, every 10 s of CPU time of this process (ITIMER_PROF: not
+// wall time, the machine may be loaded) the step counter must have moved
+#include <sys/time.h>
 static long wd_last = -1;
 static void on_alarm(int sig) {
   (void)sig;
-  if (steps == wd_last) { printf("V livelock t%d made no atomic step for 10 seconds at step %ld (a loop inside the allocator without a scheduling point)\nEND steps=%ld viol=%ld\n", cur, steps, steps, nviol + 1); fflush(stdout); _exit(5); }
-  wd_last = steps; alarm(10);
+  if (!sched_on) { wd_last = -1; return; }
+  if (steps == wd_last) { printf("V livelock t%d made no atomic step during 10 seconds of CPU time at step %ld (a loop inside the allocator without a scheduling point)\nEND steps=%ld viol=%ld\n", cur, steps, steps, nviol + 1); fflush(stdout); _exit(5); }
+  wd_last = steps;
 }
+static void watchdog_start(void) { struct itimerval it = { { 10, 0 }, { 10, 0 } }; signal(SIGPROF, on_alarm); setitimer(ITIMER_PROF, &it, NULL); }
 static void on_segv(int sig) { printf("V crash signal %d in t%d at step %ld\nEND steps=%ld viol=%ld\n", sig, cur, steps, steps, nviol + 1); fflush(stdout); _exit(4); }
 
 // ---- C12: mi_abandoned_visit_blocks at quiescence (mode exit) --------------------------------------
@@ -470,9 +479,10 @@ int main(int argc, char** argv) {
   prng_seed(&G, seed * 2 + 1); prng_seed(&GP, seed * 2 + 2);
   { static const int sp[] = { 20, 55, 55, 85 }; stay_pct = sp[seed % 4]; }
   setvbuf(stdout, NULL, _IOFBF, 1 << 16);
-  signal(SIGSEGV, on_segv); signal(SIGBUS, on_segv); signal(SIGABRT, on_segv); signal(SIGALRM, on_alarm); alarm(10);
+  signal(SIGSEGV, on_segv); signal(SIGBUS, on_segv); signal(SIGABRT, on_segv); watchdog_start();
   if (getenv("VERIF_RECLAIM_ON_FREE")) mi_option_set(mi_option_abandoned_reclaim_on_free, atoi(getenv("VERIF_RECLAIM_ON_FREE")));
   if (getenv("VERIF_NO_ARENA")) mi_option_set(mi_option_disallow_arena_alloc, 1);
+  if (getenv("VERIF_STAGGER")) stagger = 1;
   if (getenv("VERIF_TARGET_SEGMENTS")) many_segments = 1;
   if (getenv("VERIF_TARGET_SEGMENTS")) mi_option_set(mi_option_target_segments_per_thread, atoi(getenv("VERIF_TARGET_SEGMENTS")));
   if (getenv("VERIF_BIG_ARENA")) { big_arena = 1; mi_arena_id_t aid; if (mi_reserve_os_memory_ex((size_t)4 << 30, false, false, false, &aid) != 0) { printf("V fail could not reserve the big arena\nEND steps=0 viol=1\n"); return 0; } }
